@@ -49,9 +49,11 @@ func (v *StructSchema) Merge(other *StructSchema, others ...*StructSchema) *Stru
 // cloneShallow creates a shallow copy of the schema.
 // The new schema shares references to the transforms, tests and inner schema.
 func (v *StructSchema) cloneShallow() *StructSchema {
+	// tests and postTransforms are copied: sharing the backing arrays would let a test added later to
+	// one schema overwrite a test added to another schema derived from the same base
 	new := &StructSchema{
-		postTransforms: v.postTransforms,
-		tests:          v.tests,
+		postTransforms: append([]PostTransform(nil), v.postTransforms...),
+		tests:          append([]Test(nil), v.tests...),
 		required:       v.required,
 		schema:         v.schema,
 	}
